@@ -74,10 +74,71 @@ Theorem C02_wire_in_stream : forall shape e m x,
 Proof. exact spec_parse_app. Qed.
 Print Assumptions C02_wire_in_stream.
 
+(* ---- the Send* helpers (model/Helpers.v: the constructors of fluent/protocol with the clock as a
+   parameter, and "build the message of the mode the helper names, then Send it"): a successful call
+   puts on the wire the message of that mode, stamped with the clock reading [now] (whole seconds
+   for Message mode, seconds and nanoseconds as EventTime for MessageExt), carrying exactly the
+   caller's tag, record, entries or bytes; entry-list helpers add option size = number of entries,
+   compressed ones compressed = gzip.  The judge is the specification parser. ---- *)
+From FF Require Import model.Pool model.Helpers.
+From FF Require proofs.Helpers_Proofs.
+
+Theorem C02_helper_send_message : forall gz now tag rec e,
+  len tag < two32 -> int64_ok (fst now) = true -> wf_gval rec = true -> is_gmap rec = true ->
+  helper_wire gz now (HSendMessage tag rec) = Ok e ->
+  spec_parse shape_message e = Some (SMessage tag (TInt (fst now)) (value_of rec) None, []).
+Proof. exact Helpers_Proofs.helper_message. Qed.
+Print Assumptions C02_helper_send_message.
+
+Theorem C02_helper_send_message_ext : forall gz now tag rec e,
+  len tag < two32 -> wf_instant now = true -> wf_gval rec = true -> is_gmap rec = true ->
+  helper_wire gz now (HSendMessageExt tag rec) = Ok e ->
+  spec_parse shape_message e = Some (SMessage tag (stime_of now) (value_of rec) None, []).
+Proof. exact Helpers_Proofs.helper_message_ext. Qed.
+Print Assumptions C02_helper_send_message_ext.
+
+Theorem C02_helper_send_forward : forall gz now tag es e,
+  len tag < two32 -> len es < two32 -> forallb wf_entry es = true ->
+  forallb (fun en => is_gmap (e_rec en)) es = true ->
+  helper_wire gz now (HSendForward tag es) = Ok e ->
+  spec_parse shape_forward e = Some (abs_forward (new_forward tag es), []).
+Proof. exact Helpers_Proofs.helper_forward. Qed.
+Print Assumptions C02_helper_send_forward.
+
+Theorem C02_helper_send_packed : forall gz now tag es e,
+  len tag < two32 -> len es < two32 ->
+  helper_wire gz now (HSendPacked tag es) = Ok e ->
+  exists st, marshal_packed es = Ok st /\
+    (len st < two32 -> spec_parse shape_packed e =
+       Some (abs_packed {| p_tag := tag; p_stream := st; p_opts := Some (size_opts (length es)) |}, [])).
+Proof. exact Helpers_Proofs.helper_packed. Qed.
+Print Assumptions C02_helper_send_packed.
+
+Theorem C02_helper_send_packed_from_bytes : forall gz now tag st e,
+  len tag < two32 -> len st < two32 ->
+  helper_wire gz now (HSendPackedFromBytes tag st) = Ok e ->
+  spec_parse shape_packed e = Some (SPacked tag st None, []).
+Proof. exact Helpers_Proofs.helper_packed_from_bytes. Qed.
+Print Assumptions C02_helper_send_packed_from_bytes.
+
+Theorem C02_helper_send_compressed : forall gz now tag es e,
+  len tag < two32 -> len es < two32 ->
+  helper_wire gz now (HSendCompressed tag es) = Ok e ->
+  exists st, marshal_packed es = Ok st /\
+    (len (gz st) < two32 -> spec_parse shape_packed e =
+       Some (abs_packed {| p_tag := tag; p_stream := gz st; p_opts := Some (gzip_opts (Some (Z.of_nat (length es)))) |}, [])).
+Proof. exact Helpers_Proofs.helper_compressed. Qed.
+Print Assumptions C02_helper_send_compressed.
+
+Theorem C02_helper_send_compressed_from_bytes : forall gz now tag st e,
+  len tag < two32 -> len (gz st) < two32 ->
+  helper_wire gz now (HSendCompressedFromBytes tag st) = Ok e ->
+  spec_parse shape_packed e = Some (abs_packed (new_compressed_from_bytes gz tag st), []).
+Proof. exact Helpers_Proofs.helper_compressed_from_bytes. Qed.
+Print Assumptions C02_helper_send_compressed_from_bytes.
+
 (* raw bytes reach the wire verbatim: in the client model a SendRaw, and a Send of a message
-   whose encoding is [b] (RawMessage), offer exactly [b] to the connection in one Write.
-   (Which mode a Send* helper puts on the wire and the time stamp are properties of the
-   constructors' Go code; they are decided by the judged correspondence, see DESIGN.) *)
+   whose encoding is [b] (RawMessage), offer exactly [b] to the connection in one Write. *)
 Theorem C02_raw_verbatim : forall H cf s c b s' e r,
   s_sess s = Some (c, true) ->
   step H cf s (OSendRaw b None) = (s', e, r) -> e = [EvWrite c b b 0] /\ r = ROk.
